@@ -46,9 +46,10 @@ for d in sorted(glob.glob('/verif/seeded/*/')):
     n = os.path.basename(d.rstrip('/'))
     prop = n.split('_')[0]
     out = open(d + 'check_output.txt').read() if os.path.exists(d + 'check_output.txt') else ''
-    classes = re.findall(r'^violation class=(\S+) runs=(\d+)', out, re.M)
+    classes = re.findall(r'^violation class=(\S+) (?:runs=(\d+))?', out, re.M)
+    classes = [(c, r or '1') for c, r in classes]
     totals = re.findall(r'^(C\d\d) (?:quick|sweep) variant=(\S+) .*?runs=(\d+) finished=(\d+)', out, re.M)
-    m = re.search(r'exit=(\d+)', out)
+    ex = re.findall(r'^exit=(\d+)', out, re.M)
     meta = {
         "id": n,
         "breaks_property": prop,
@@ -61,7 +62,7 @@ for d in sorted(glob.glob('/verif/seeded/*/')):
         },
         "registered_check": {
             "command": "git -C /repo apply patch.diff && ./check.sh %s quick ; git -C /repo checkout -- ." % prop,
-            "exit": int(m.group(1)) if m else None,
+            "exit": int(ex[-1]) if ex else None,
             "violation_classes": [{"class": c, "runs": int(r)} for c, r in classes],
             "batches": [{"variant": v, "runs": int(r), "finished": int(f)} for _, v, r, f in totals],
         },
